@@ -235,6 +235,10 @@ func makeComplexType(from *xsd.ComplexType, knownTypes *TypeList, logger *logrus
 	item := &StandardType{
 		baseType: baseType{name: from.Name.Local},
 	}
+	// Register the type before its children are built: an element may refer back to the type that
+	// contains it (directly or through other complex types), and must then find it instead of
+	// building it again without end.
+	knownTypes.Add(item)
 
 	for _, child := range getAllElements(from) {
 		c := createChildItem(child.Name, child.Type, false, child.Optional, child.Plural)
